@@ -3,6 +3,7 @@ package main
 import (
 	"encoding/json"
 	"fmt"
+	"math/big"
 	"sort"
 	"strconv"
 	"strings"
@@ -66,6 +67,10 @@ func c18Tree(d c18Doc) any {
 		var s string
 		_ = json.Unmarshal(d.V, &s)
 		return s
+	case "big":
+		var s string
+		_ = json.Unmarshal(d.V, &s)
+		return json.Number(s) // written into the JSON text as a number
 	case "arr":
 		var es []c18Doc
 		_ = json.Unmarshal(d.V, &es)
@@ -103,6 +108,10 @@ func c18Project(v any) h.V {
 		return h.V{"k": "int", "v": t}
 	case float64:
 		return h.V{"k": "float", "v": strconv.FormatFloat(t, 'g', -1, 64)}
+	case json.Number:
+		return h.V{"k": "big", "v": string(t)}
+	case *big.Int:
+		return h.V{"k": "big", "v": t.String()}
 	case string:
 		return h.V{"k": "str", "v": t}
 	case []any:
@@ -140,6 +149,9 @@ func c18Lisp(v any) slip.Object {
 		return slip.Fixnum(t)
 	case float64:
 		return slip.DoubleFloat(t)
+	case json.Number:
+		bi, _ := new(big.Int).SetString(string(t), 10)
+		return (*slip.Bignum)(bi)
 	case string:
 		return slip.String(t)
 	case []any:
@@ -169,6 +181,8 @@ func c18View(o slip.Object) h.V {
 		return h.V{"k": "float", "v": strconv.FormatFloat(float64(t), 'g', -1, 64)}
 	case slip.String:
 		return h.V{"k": "str", "v": string(t)}
+	case *slip.Bignum:
+		return h.V{"k": "big", "v": (*big.Int)(t).String()}
 	case slip.List:
 		if len(t) == 0 {
 			return h.V{"k": "nil"}
